@@ -78,12 +78,21 @@ def run(ctx):
         nser = r.randint(1, 3)
         series = [[r.randrange(0, 20) for _ in times] for _ in range(nser)]
         rep = dict(entry="subsample", report=[str(x) for x in report], times=[str(x) for x in times], series=series)
+        # mixed kinds: the first series integer counts (what the simulators return), the later ones FLOAT fractions k/8 (a
+        # proportion, an ODE curve) — every series must come back as the values it had, whatever the kind of the first one
+        floaty = nser >= 2 and r.random() < 0.5
+        rep["float_series"] = floaty
+        ctx.count("subsample:float later series" if floaty else "subsample:int series")
         try:
             res = EoN.subsample(np.array([float(x) for x in report]), np.array([float(x) for x in times]),
-                                *[np.array(s) for s in series])
+                                *[(np.array(s) / 8.0 if (floaty and j >= 1) else np.array(s)) for j, s in enumerate(series)])
             if nser == 1:
                 res = (res,)
-            impl = dict(ok=True, outs=[[int(x) for x in a] for a in res])
+            # back to the integers the model works with (exact: k/8 is dyadic); a value that is no longer k/8 stays a float
+            def back(j, x):
+                y = float(x) * (8.0 if (floaty and j >= 1) else 1.0)
+                return int(y) if y == int(y) else y
+            impl = dict(ok=True, outs=[[back(j, x) for x in a] for j, a in enumerate(res)])
         except Exception as e:
             impl = dict(ok=False, err=err_enum(e))
         ctx.count("subsample:%s" % ("ok" if impl["ok"] else impl["err"]))
